@@ -2,7 +2,9 @@
 package props
 
 import (
+	"errors"
 	"fmt"
+	"io/fs"
 	"regexp"
 	"strings"
 )
@@ -28,6 +30,10 @@ var digitsRe = regexp.MustCompile(`0x[0-9a-fA-F]+|[0-9]+`)
 func errKind(err error) string {
 	if err == nil {
 		return "ok"
+	}
+	if errors.Is(err, fs.ErrNotExist) {
+		// a template that is not there: how the loader at hand words that (memory, file system) is not the library's
+		return "template does not exist"
 	}
 	s := err.Error()
 	if len(s) > 120 {
